@@ -19,8 +19,8 @@ import (
 //verif:case C07,C08,C09 thorough VerifStreamRuns 5 0..2
 //verif:case C07,C08,C09 quick VerifStreamReducers 0..4 0..3 0..1
 //verif:case C07,C08,C09 thorough VerifStreamReducers 0..4 4 0..1
-//verif:case C07,C08,C09 quick VerifStreamSources 0..3 0..3
-//verif:case C07,C08,C09 thorough VerifStreamSources 0..3 4
+//verif:case C07,C08,C09 quick VerifStreamSources 0..4 0..3
+//verif:case C07,C08,C09 thorough VerifStreamSources 0..4 4
 
 // ---- instrumented source
 
@@ -745,6 +745,40 @@ func VerifStreamSources(which int, L int) {
 				vAssert(err == End, "C07:sticky-end/fromiterator")
 			}
 		}
+	case 4: // FromIterator: the caller's context expires WHILE the iterator is producing item `at`
+		// (live when Next was called). Whatever that call returns - the item or the context's
+		// error -, reading on with a live context gives the whole sequence, nothing lost or twice.
+		at := vNondetInt("at")
+		vAssume(vAnd(0 <= at, at <= L))
+		cctx, cancel := context.WithCancel(ctx)
+		it := &vCancellingIter{items: items, at: int(vConcretize(at)), cancel: cancel}
+		st := FromIterator[int](it)
+		k := 0
+		ended := false
+		for call := 0; call < L+3 && !ended; call++ {
+			var c context.Context = ctx
+			if !it.fired {
+				c = cctx
+			}
+			wasLive := c.Err() == nil
+			v, err := st.Next(c)
+			switch {
+			case err == nil:
+				vAssert(k < L, "C08:fromiterator/not-more-than-source")
+				if k < L {
+					vAssert(v == items[k], "C08:fromiterator/nothing-lost-when-the-context-expires-during-the-source-call")
+				}
+				k++
+			case err == End:
+				vAssert(k == L, "C08:fromiterator/end-only-after-every-item")
+				ended = true
+			default:
+				vAssert(vAnd(err == context.Canceled, vOr(!wasLive, it.fired)), "C08:fromiterator/only-the-context-error")
+			}
+		}
+		vAssert(ended, "C08:fromiterator/reaches-end")
+		st.Close()
+		cancel()
 	case 3: // WithPeek.Peek under a transient source fault and an expired context
 		plan := vPlan(4, L)
 		src := &vSrc{items: items}
@@ -789,4 +823,26 @@ func VerifStreamSources(which int, L int) {
 		vAssert(src.closes == 1, "C09:close/source-closed-exactly-once")
 	}
 	vCover("stream-sources")
+}
+
+// vCancellingIter: an iterator over items that cancels a context while it is producing item `at`
+// (at == len(items): while it is reporting the end).
+type vCancellingIter struct {
+	items  []int
+	pos    int
+	at     int
+	cancel context.CancelFunc
+	fired  bool
+}
+
+func (it *vCancellingIter) Next() (int, bool) {
+	if it.pos == it.at && !it.fired {
+		it.fired = true
+		it.cancel()
+	}
+	if it.pos >= len(it.items) {
+		return 0, false
+	}
+	it.pos++
+	return it.items[it.pos-1], true
 }
